@@ -392,9 +392,23 @@ Lemma parse_float_literal_cases s :
   exists n, parse_float_literal s = Ok (FFloat n).
 Proof.
   unfold parse_float_literal. destruct (split_number s) as [[[[neg ip] fp] ex]|]; [|left; reflexivity].
-  destruct (sig_digits (ip ++ fp)) as [ds tz]. destruct ds as [|d ds']; [right; right; eauto|].
+  destruct (sig_digits (ip ++ fp)) as [ds tz]. destruct ds as [|d ds']; [destruct neg; [left; reflexivity|right; right; eauto]|].
   cbv zeta. destruct (Z.leb 310 _); [right; left; reflexivity|].
   destruct (_ || _); [left; reflexivity|].
   destruct (mk_float_cases neg (d :: ds') (Z.of_nat tz + ex - Z.of_nat (length fp))) as [->|[n ->]];
     [left; reflexivity|right; right; eauto].
+Qed.
+
+(* what the exponent branch of int(float(text)) can answer in the model *)
+Lemma parse_int_literal_cases s :
+  parse_int_literal s = (z <- int_of_text s ;; Ok (FInt z)) \/
+  parse_int_literal s = Err EUnsupported \/ parse_int_literal s = syntax_error \/
+  exists z, parse_int_literal s = Ok (FInt z).
+Proof.
+  unfold parse_int_literal. destruct (negb (has_exponent s)); [left; reflexivity|right].
+  destruct (split_number s) as [[[[neg ip] fp] ex]|]; [|left; reflexivity].
+  destruct (Z.eqb (dec_value ip) 0); [right; right; eauto|].
+  destruct (Z.leb 400 ex); [right; left; reflexivity|].
+  destruct (_ || _); [left; reflexivity|]. cbv zeta.
+  match goal with |- context [if ?c then _ else _] => destruct c end; [left; reflexivity|right; right; eauto].
 Qed.
